@@ -95,6 +95,9 @@ def main():
     seed = int(os.environ.get('VERIF_SEED', '0') or 0)
     from . import seams
     seams.quiet_logging()
+    import contextlib
+    with contextlib.redirect_stdout(sys.stderr):
+        import skepticoin.blockstore   # noqa: prints and creates chain.db in the scratch cwd at import time
     try:
         mod = importlib.import_module('vf.props.' + pid.lower())
     except ModuleNotFoundError as e:
